@@ -44,6 +44,20 @@ var sandboxes = []string{
 	"/s", "/sbx", "/sb x",
 }
 
+// bases for the systematic sibling sweep (2b) and the ways a configuration may spell them
+var sandboxBases = []string{"/var/tmp/nebula-debug", "/sb", "/a/sb", "sb", "../sb", "a/sb"}
+
+var sandboxSpellings = []func(dir, name string) string{
+	func(d, n string) string { return d + n },
+	func(d, n string) string { return d + n + "/" },
+	func(d, n string) string { return d + n + "//" },
+	func(d, n string) string { return d + n + "/." },
+	func(d, n string) string { return d + n + "/./" },
+	func(d, n string) string { return d + "./" + n + "/" },
+	func(d, n string) string { return d + n + "/x/../" },
+	func(d, n string) string { return d + "/" + n + "///" },
+}
+
 var pathTokens = []string{"/", ".", "..", "sb", "sbx", "x", "s", "..sb", "...", "/sb/", "../"}
 
 func randPath(r *hlib.Rand, toks []string, maxTok int) string {
@@ -98,6 +112,31 @@ func gen(r *hlib.Rand, n int, tier, profile string, emit func(string, ...any)) {
 		for _, p := range []string{sb, sb + "/", sb + "/x", sb + "x", sb + "/../x", sb + "/..", sb + "/x/..", sb + "/x/../y",
 			"/" + sb, "../" + sb, "../" + sb + "/x", sb + "/./x//y", "x/" + sb} {
 			emit("san %s %s", h(sb), h(p))
+		}
+	}
+	// 2b. sandbox spellings (trailing separators, dot elements, detours) crossed with similar-prefix siblings:
+	//     names that extend the sandbox's basename ("sb-old", "sb2", "sb.bak", "sbx"), names it extends ("s"),
+	//     case variants — spelled absolutely, relatively with "..", and through the sandbox and back out
+	for _, base := range sandboxBases {
+		dir, name := filepath.Split(base) // dir keeps its trailing separator ("" for a bare name)
+		clean := filepath.Clean(base)
+		for _, sp := range sandboxSpellings {
+			sb := sp(dir, name)
+			sibs := []string{name + "-old", name + "2", name + ".bak", name + "x", name + ".", name + "..", name + " ", name + "-old/cpu.pprof",
+				name[:len(name)-1], strings.ToUpper(name), name + "/../" + name + "2", name + "x/y"}
+			for _, sib := range sibs {
+				emit("san %s %s", h(sb), h(dir+sib))               // as spelled next to the sandbox (absolute when it is)
+				emit("san %s %s", h(sb), h("../"+sib))             // relative, out through ".."
+				emit("san %s %s", h(sb), h(clean+"/../"+sib))      // through the sandbox and back out
+				emit("san %s %s", h(sb), h("x/../../"+sib))        // into a child, then out
+				emit("san %s %s", h(sb), h(sb+"/../"+sib))         // through the sandbox as configured
+				emit("san %s %s", h(sb), h(sib))                   // the same name *inside* the sandbox: must be accepted
+			}
+			for _, in := range []string{"x", "x/y", "./x", name, name + "/x", "x/../y", ".x", "..x", "x/"} {
+				emit("san %s %s", h(sb), h(in))
+				emit("san %s %s", h(sb), h(clean+"/"+in))
+				emit("san %s %s", h(sb), h(sb+"/"+in))
+			}
 		}
 	}
 	// 3. random
